@@ -4,6 +4,7 @@ from __future__ import annotations
 import random
 
 from . import qprops
+from . import smallscope as ss
 from .codec import Some, plain
 from .core import Plugin
 
@@ -72,6 +73,25 @@ class C19(Plugin):
                         seen_u.add(u)
                 known = recs if ok else None
             yield [Some(known) if known is not None else None, delims or [], Some(cutoff) if cutoff is not None else None, meta, uris, uris2, "", []]
+
+    explanation = ("small-scope block: every list of at most three URIs over {h/a1, h/a2, h/b_1, h/b_2, h#1, k/1, h/a, x} (with a reversed "
+                   "copy that repeats its first element), every delimiter list in {default, ['/'], ['_', '/'], ['#', '/', '_']} and every "
+                   "cutoff in {none, 1, 2}; the thorough tier runs the whole block (exhaustive=true refers to that block only), the quick "
+                   "tier a fixed sample of it")
+
+    def exhaustive(self, tier):
+        import itertools as it
+        T = ["h/a1", "h/a2", "h/b_1", "h/b_2", "h#1", "k/1", "h/a", "x"]
+        cases = []
+        for k in (0, 1, 2, 3):
+            for us in it.product(T, repeat=k):
+                us = list(us)
+                us2 = list(reversed(us)) + us[:1]
+                for delims in ([], ["/"], ["_", "/"], ["#", "/", "_"]):
+                    for cutoff in (None, 1, 2):
+                        cases.append([None, delims, Some(cutoff) if cutoff is not None else None, "ns", us, us2, "", []])
+        self.exhaustive_flag = tier == "thorough"
+        return ss.block(cases, tier, 400)
 
     def observe(self, case):
         import curies
